@@ -642,6 +642,11 @@ func init() {
 		Variant{Name: "benign: same edit seen by C01", Property: "C01", File: pst, Benign: true,
 			Old: "\t\t\t\t\t// Clone the message for each recipient to prevent shared mutation\n\t\t\t\t\tclonedResp := proto.Clone(msg.Resp).(*adminservice.StreamWorkflowReplicationMessagesResponse)\n", New: "\t\t\t\t\t// A fresh message for each recipient to prevent shared mutation\n\t\t\t\t\tclonedResp := &adminservice.StreamWorkflowReplicationMessagesResponse{\n\t\t\t\t\t\tAttributes: &adminservice.StreamWorkflowReplicationMessagesResponse_Messages{\n\t\t\t\t\t\t\tMessages: &replicationv1.WorkflowReplicationMessages{\n\t\t\t\t\t\t\t\tExclusiveHighWatermark: attr.Messages.ExclusiveHighWatermark,\n\t\t\t\t\t\t\t\tPriority:               attr.Messages.Priority,\n\t\t\t\t\t\t\t},\n\t\t\t\t\t\t},\n\t\t\t\t\t}\n"},
 	)
+	// ---- namespace translator method gate (O12.8)
+	addVariants(
+		Variant{Name: "benign: namespace translator skips GetSystemInfo / GetClusterInfo, which carry no namespace in either service", Property: "C12", File: "seeded-benign/C12-method-gate-cluster-scoped-only.diff", Benign: true,
+			Patch: "seeded-benign/C12-method-gate-cluster-scoped-only.diff"},
+	)
 	// ---- swallowed errors and retained state (general rules)
 	addVariants(
 		Variant{Name: "blob repair error logged and dropped", Property: "C17", File: refl,
